@@ -246,3 +246,47 @@ def comp_over_all(flow, e: ast.AST, iter_ok, elt_ok) -> tuple[bool, str]:
     if not elt_ok(e.elt, g.target.id):
         return False, f"element is `{txt(e.elt)[:80]}`"
     return True, "ok"
+
+
+# ---------------------------------------------------------------------------------------------------------------
+# EvtGen keyword vocabulary of decfile.lark (shared clause).  The statement kinds a property speaks about are
+# recognised by these case-sensitive keywords in every EvtGen decay file; a grammar that spells one differently (or
+# case-insensitively, or drops a member of a keyword family) no longer reads the statements the property quantifies over.
+VOCAB_TREES = {
+    "decay": {"Decay", "Enddecay"}, "cdecay": {"CDecay"}, "copydecay": {"CopyDecay"}, "photos": {"PHOTOS"}, "start": {"End"},
+    "define": {"Define"}, "alias": {"Alias"}, "chargeconj": {"ChargeConj"}, "particle_def": {"Particle"},
+    "model_alias": {"ModelAlias"}, "jetset_def": {"JetSetPar", "="}, "pythia_def": {":", "="},
+    "setlsbw": {"BlattWeisskopf"}, "setlspw": {"SetLineshapePW"}, "yes": {"yesPhotos"}, "no": {"noPhotos"},
+}
+VOCAB_TERMS = {
+    "LABEL_PYTHIA8_COMMANDS": {"PythiaAliasParam", "PythiaBothParam", "PythiaGenericParam"},
+    "LABEL_LINESHAPE": {"LSFLAT", "LSNONRELBW", "LSMANYDELTAFUNC"},
+    "LABEL_INCLUDE_FACTOR": {"IncludeBirthFactor", "IncludeDecayFactor"},
+    "BOOLEAN_INCLUDE_FACTOR": {"yes", "no"},
+    "LABEL_CHANGE_MASS": {"ChangeMassMin", "ChangeMassMax"},
+}
+
+
+def keyword_vocabulary(ctx, ss, rule: str, trees=(), terms=()):
+    from ..core.larkfacts import grammar_facts
+    gf = grammar_facts(ss, DECGRAMMAR)
+    loc = f"src/decaylanguage/{DECGRAMMAR}"
+    for t in trees:
+        want = VOCAB_TREES[t]
+        if t != "start" and t not in gf.tree_names:
+            ctx.violation(rule, f"{DECGRAMMAR}:{t} :: keywords", loc, f"the grammar has no statement kind `{t}` any more")
+            continue
+        got = gf.keywords(t)
+        if got == want:
+            ctx.holds(rule, f"{DECGRAMMAR}:{t} :: keywords", loc, f"`{t}` is introduced by {sorted(want)}", len(want))
+        else:
+            ctx.violation(rule, f"{DECGRAMMAR}:{t} :: keywords", loc,
+                          f"`{t}` statements are recognised by {sorted(got)}, EvtGen files write {sorted(want)}: these statements are no longer read (or other words are read as this statement)")
+    for t in terms:
+        want = VOCAB_TERMS[t]
+        got = gf.terminal_words(t)
+        if got == want:
+            ctx.holds(rule, f"{DECGRAMMAR}:{t} :: keyword-family", loc, f"{t} = {sorted(want)}", len(want))
+        else:
+            ctx.violation(rule, f"{DECGRAMMAR}:{t} :: keyword-family", loc,
+                          f"{t} accepts {sorted(got) if got is not None else 'an infinite language'}, EvtGen files write {sorted(want)}")
